@@ -223,6 +223,8 @@ GENERIC_CALLRULES = [
     CallRule(r'\bstd::bind(?=\s*\(\s*std::move)', {2: 'bind_owned_tok($1, $2, 0)', 3: 'bind_owned_tok($1, $2, $3)'}, name='bind-owned'),
     CallRule(r'(?<![\w.>:])post', {2: 'post_tok($2)'}, name='post(ctx, closure)'),
     CallRule(r'(?<![\w.>:])dispatch', {2: 'dispatch_tok($2)'}, name='dispatch(ctx, closure)'),
+    CallRule(r'(?:\(std::(max)\)|\bstd::(max)(?![\w<]))', {2: 'VF_MAX($1, $2)'}, name='std::max'),
+    CallRule(r'(?:\(std::(min)\)|\bstd::(min)(?![\w<]))', {2: 'VF_MIN($1, $2)'}, name='std::min'),
 ]
 
 
